@@ -134,7 +134,8 @@ def run(module, cfg, spec_dir, *, workers=4, timeout=600, simulate=None, depth=N
             res.coverage[name] = res.coverage.get(name, 0) + int(m.group(4))
         if in_trace:
             trace_lines.append(line)
-    res.trace_text = "\n".join(trace_lines[:400])
+    # counterexamples of trace validation are as long as the trace: keep the head and the tail (the violating state)
+    res.trace_text = "\n".join(trace_lines[:200] + (["..."] + trace_lines[-300:] if len(trace_lines) > 500 else trace_lines[200:]))
     # simulation mode prints different statistics
     if simulate and res.generated == 0:
         m = re.search(r"The number of states generated: (\d+)", out)
